@@ -7,7 +7,12 @@ HERE="$(cd "$(dirname "$0")/.." && pwd)"
 P="${1:-4}"
 ls "$HERE/seeded" | xargs -P "$P" -I{} bash -c '
   n={}; prop=${n%%-*}; patch='"$HERE"'/seeded/$n/patch.diff
+  # the check that was recorded as catching it (a few changes are caught by another property than the one they
+  # were written against, e.g. shared read locks by C11)
+  if [ ! -s '"$HERE"'/seeded/$n/caught_by_$prop.txt ]; then
+    for f in '"$HERE"'/seeded/$n/caught_by_*.txt; do [ -s "$f" ] && prop=$(basename $f .txt | sed s/caught_by_//) && break; done
+  fi
   out=$('"$HERE"'/scripts/mutant_run.sh $patch $prop quick 1 2>&1)
   c=$(echo "$out" | grep -c "^VIOLATION")
   if echo "$out" | grep -q "patch failed"; then c="PATCH-DOES-NOT-APPLY"; fi
-  echo "$n $c"'
+  echo "$n $prop $c"'
